@@ -9,6 +9,7 @@ import (
 	"strings"
 	"sync"
 	"sync/atomic"
+	"syscall"
 	"time"
 
 	"github.com/google/uuid"
@@ -781,7 +782,42 @@ func (w *c09world) selfsend(n int) string {
 // c09port gives victim n of this process a fixed TCP port outside the ephemeral range, so that a
 // stopped victim's address stays silent (nobody else binds it) and a restart can bind it again.
 func c09port(n int) int {
-	return 10000 + (os.Getpid()%1200)*16 + n
+	return 10000 + c09portBlock()*16 + n
+}
+
+var (
+	c09blockOnce sync.Once
+	c09block     int
+	c09blockFile *os.File // kept open: the lock lives as long as the process
+)
+
+// c09portBlock reserves a block of 16 port numbers for this process machine-wide (an exclusive lock on a file per
+// block, released by the kernel when the process ends). Several C09 harnesses run at the same time on this machine
+// (checks, seed verification); with the block derived from the process id alone two case processes whose ids agree
+// modulo 1200 shared their victims' ports, and a peer that is down in one case was listening in the other: a send
+// "towards a dead peer" then succeeded (false alarm error-not-reported, notes/FALSE_ALARMS.md).
+func c09portBlock() int {
+	c09blockOnce.Do(func() {
+		start := os.Getpid() % 1200
+		c09block = start
+		dir := "/var/tmp/onetverif-c09-ports"
+		if os.MkdirAll(dir, 0777) != nil {
+			return
+		}
+		for i := 0; i < 1200; i++ {
+			b := (start + i) % 1200
+			f, err := os.OpenFile(fmt.Sprintf("%s/%d.lock", dir, b), os.O_CREATE|os.O_RDWR, 0666)
+			if err != nil {
+				return
+			}
+			if syscall.Flock(int(f.Fd()), syscall.LOCK_EX|syscall.LOCK_NB) == nil {
+				c09block, c09blockFile = b, f
+				return
+			}
+			f.Close()
+		}
+	})
+	return c09block
 }
 
 // par: sends towards dead peers are in progress (each keeps dialling for a while) when a send
